@@ -12,7 +12,7 @@
    sin/cos are over Coq's R and depend on the standard library's real-number axioms only. *)
 From Coq Require Import ZArith Reals Lra List Bool.
 From PF Require Import Geom.Vec Geom.AlgebraSpec Geom.AlgebraInst Geom.AlgebraMatProofs Geom.AlgebraMatInvProofs
-  Geom.AlgebraQuatProofs Geom.AlgebraQuatRProofs Geom.AlgebraTrsProofs Geom.AlgebraAabbProofs.
+  Geom.AlgebraQuatProofs Geom.AlgebraQuatRProofs Geom.AlgebraTrsProofs Geom.AlgebraArrayProofs Geom.AlgebraAabbProofs.
 From PFGen Require Mat Quat Trs Aabb.
 Local Open Scope nat_scope.
 
@@ -189,11 +189,43 @@ Proof.
 Qed.
 Print Assumptions trs_constructors.
 
-(* mesh level (hand-written model of the Position array, tied to modeling.Mesh by the correspondence
-   check): the i-th position of the result is the transform of the i-th position, nothing added or lost *)
-Theorem mesh_ops_pointwise : forall F (f : vec3 F -> vec3 F) (ps : list (vec3 F)) d i, i < length ps ->
-  length (mesh_map f ps) = length ps /\ nth i (mesh_map f ps) (f d) = f (nth i ps d).
-Proof. intros F f ps d i _. unfold mesh_map. split; [apply map_length | apply map_nth]. Qed.
+(* ======================================================================== array / mesh level
+   TRS.TransformArray, TRS.TransformInPlace and Quaternion.RotateArray are GENERATED too (go2coq translates
+   element-wise loops to List.map and rejects every other loop shape): they apply the scalar entry point to every
+   element, in order, nothing added or dropped — for lists of every length *)
+Theorem transform_array_pointwise : forall F (FO : Carrier F), ring_carrier FO ->
+  forall (t : Trs.TRS F) (xs : list (vec3 F)), Trs.TRS_TransformArray t xs = map (Trs.TRS_Transform t) xs.
+Proof. exact @AlgebraArrayProofs.transform_array_pointwise. Qed.
+Print Assumptions transform_array_pointwise.
+
+Theorem transform_in_place_pointwise : forall F (FO : Carrier F), ring_carrier FO ->
+  forall (t : Trs.TRS F) (xs : list (vec3 F)), Trs.TRS_TransformInPlace t xs = map (Trs.TRS_Transform t) xs.
+Proof. exact @AlgebraArrayProofs.transform_in_place_pointwise. Qed.
+Print Assumptions transform_in_place_pointwise.
+
+Theorem rotate_array_pointwise : forall F (FO : Carrier F), ring_carrier FO ->
+  forall (q : Quat.Quaternion F) (xs : list (vec3 F)), Quat.Quaternion_RotateArray q xs = map (Quat.Quaternion_Rotate q) xs.
+Proof. exact @AlgebraArrayProofs.rotate_array_pointwise. Qed.
+Print Assumptions rotate_array_pointwise.
+
+(* mesh level: Mesh.ApplyTRS replaces the Position array by TransformArray of it (generated); Mesh.Rotate /
+   Translate / Scale rebuild it with their own loops in modeling/mesh.go (Mesh carries maps and closures: outside the
+   translator's subset), modelled by the hand-written [mesh_map] and tied by the correspondence check.  Either way the
+   i-th position of the result is the transform of the i-th position and the vertex count is unchanged *)
+Theorem mesh_ops_pointwise : forall F (FO : Carrier F), ring_carrier FO ->
+  forall (t : Trs.TRS F) (q : Quat.Quaternion F) (f : vec3 F -> vec3 F) (ps : list (vec3 F)) d i,
+  (* ApplyTRS *)
+  (length (Trs.TRS_TransformArray t ps) = length ps /\
+   nth i (Trs.TRS_TransformArray t ps) (Trs.TRS_Transform t d) = Trs.TRS_Transform t (nth i ps d)) /\
+  (* Rotate, as RotateArray and as the hand-written model: the same array *)
+  (Quat.Quaternion_RotateArray q ps = mesh_map (Quat.Quaternion_Rotate q) ps) /\
+  (* the hand-written model in general *)
+  (length (mesh_map f ps) = length ps /\ nth i (mesh_map f ps) (f d) = f (nth i ps d)).
+Proof.
+  intros F FO RC t q f ps d i. split; [exact (AlgebraArrayProofs.transform_array_nth RC t ps d i)|].
+  split; [exact (AlgebraArrayProofs.rotate_array_pointwise RC q ps)|].
+  unfold mesh_map. split; [apply map_length | apply map_nth].
+Qed.
 Print Assumptions mesh_ops_pointwise.
 
 (* ======================================================================== boxes *)
